@@ -202,7 +202,7 @@ def iso_defect(psi, i, bsz):
 class Meas:
     """measurements of one MPS against one Hamiltonian"""
 
-    def __init__(self, psi, ham, Hd):
+    def __init__(self, psi, ham, Hd, apply_route=True):
         v = mps_dense(psi)
         self.v = v
         n = float(np.vdot(v, v).real)
@@ -213,6 +213,11 @@ class Meas:
         self.euT = complex(np.vdot(v, Hd.T @ v))                # the same with the transposed operator
         self.emT = self.euT.real / n if n > 0 else float("nan")
         # the library's own operator-on-state route
+        self.has_apply = bool(apply_route)
+        if not apply_route:
+            self.ema = self.emd
+            self.ema_im = 0.0
+            return
         try:
             with warnings.catch_warnings():
                 warnings.simplefilter("ignore")
@@ -233,8 +238,9 @@ class Recorder:
     recomputed with numpy, which gives the discarded weight of the split independently of whether the
     library renormalises afterwards."""
 
-    def __init__(self):
+    def __init__(self, apply_per_update=True):
         self.recs = []
+        self.apply_per_update = apply_per_update   # False: psi.H @ ham.apply(psi) only at sweep ends / final state
         self.cur = None       # dict with the context of the armed run
         self._orig = None
 
@@ -328,7 +334,7 @@ class Recorder:
                 c["in_upd"] = False
             loc_en, tot_en = out
             psi = dm.state
-            m = Meas(psi, c["ham"], c["Hd"])
+            m = Meas(psi, c["ham"], c["Hd"], apply_route=rec.apply_per_update)
             with warnings.catch_warnings():
                 warnings.simplefilter("ignore")
                 efull = complex(dm.TN_energy ^ all)
@@ -353,7 +359,7 @@ class Recorder:
             sane = m.n > 1e-3
             r = {"ev": "update", "k": c["k"], "i": int(i), "dir": {"right": "R", "left": "L"}.get(direction, str(direction)),
                  "eloc": q7(complex(loc_en).real), "etot": q7(tot.real), "eim": qabs(tot.imag, 1e-7),
-                 "efull": q7(efull.real), "ema": q7(m.ema), "emd": q7(m.emd), "eud": q7(m.eu.real),
+                 "efull": q7(efull.real), "ema": q7(m.ema), "hasema": m.has_apply, "emd": q7(m.emd), "eud": q7(m.eu.real),
                  "n7": q7(m.n), "dw9": dw9, "dwsrc": dwsrc, "bonds": after,
                  "nb": int(after[i]) if bsz == 2 else 0,
                  "rmax": int(min(bl * d, d * br)) if bsz == 2 else 0,
